@@ -19,6 +19,7 @@ WC = r'write_cell$'
 
 
 def check(F, R, tier):
+    lib.cas_loops_fresh(R, F, r'^iceoryx2_bb_lock_free::spmc::unrestricted_atomic::', 1, 'a decision computed once before the loop is stale after the first failed CAS')
     store = F.fn(UA + 'UnrestrictedAtomic::<T>::store')
     upd1 = F.fn(UA + "Producer::<'_, T>::__internal_update_write_cell")
     upd2 = F.fn(UA + 'UnrestrictedAtomicMgmt::__internal_update_write_cell')
